@@ -287,8 +287,8 @@ func (ex *Exec) ropeIntrinsic(fn *ssa.Function, name string, args []Value) (Valu
 		}
 		unit := ex.toRope(args[0])
 		ul, uw := ex.ropeLen(unit), ex.ropeWidth(unit)
-		// monitor (as for make): a repetition must stay below 2 GiB + 64 KiB of result
-		if ex.decide(ex.ts.Bin(OpSLt, ex.ts.Const(64, 1<<31+1<<16), ex.ts.Bin(OpMul, ul, cnt))) {
+		// monitor (as for make), switched on by the run's REPEATMON bound: a repetition must stay below 2 GiB + 64 KiB of result
+		if ex.bounds["REPEATMON"] != 0 && ex.decide(ex.ts.Bin(OpSLt, ex.ts.Const(64, 1<<31+1<<16), ex.ts.Bin(OpMul, ul, cnt))) {
 			panic(goPanic{"allocation of more than 2 GiB on the strength of an input-derived length"})
 		}
 		return Rope{[]Seg{{opaque: true, ln: ex.ts.Bin(OpMul, ul, cnt), wd: ex.ts.Bin(OpMul, uw, cnt)}}}, true
